@@ -59,12 +59,14 @@ def model_cases(ctx):
     out = []
     for n, (e, S, P) in enumerate(geoms):
         lay = "full" if n % 2 == 0 else "compact"
-        out.append(to_tla(dict(id=n, entry=e, S=S, Pn=P[0], Pd=P[1], layout=lay, fck=dict(kind="springs", seed=0),
+        fck = dict(kind="chiral", seed=2) if (n % 3 == 2 and e in CHIRAL_OK) else dict(kind="springs", seed=0)
+        out.append(to_tla(dict(id=n, entry=e, S=S, Pn=P[0], Pd=P[1], layout=lay, fck=fck,
                                scale=dict(s=1, t=1), sbox=MODEL_SBOX, cbox=dmh.cbox_for(S, P))))
     return geoms, out
 
 
 MODEL_SBOX = 5
+CHIRAL_OK = ("sc", "cscl", "nacl", "naclg", "bcc", "hcp")   # every site non-polar: JSeriesPermSym holds
 
 
 def run(ctx):
@@ -109,11 +111,15 @@ def run(ctx):
         # an UNSTABLE crystal (force constants times -1: every eigenvalue negative) for two geometries:
         # the sign convention of imaginary frequencies is part of the claim
         neg = gi in (1, 7)
-        for layout, store in combos:
+        for n, (layout, store) in enumerate(combos):
             ph = sessions.get((gi, store))
             if ph is None:
                 continue
-            ev = dmh.log_event(ctx, ph, orc, (entry, S, P), layout, store, dict(kind="springs", seed=0),
+            # one of the two events of the non-polar crystals: spring model + kappa [r]x, whose 3x3 blocks are NOT
+            # symmetric (the plain spring model would hide a transposed block convention)
+            chiral = n == (gi // 2 + ctx.seed) % 2 and entry in CHIRAL_OK
+            fck = dict(kind="chiral", seed=1 + (gi + ctx.seed) % 3) if chiral else dict(kind="springs", seed=0)
+            ev = dmh.log_event(ctx, ph, orc, (entry, S, P), layout, store, fck,
                                dict(s=-1 if neg else 1, t=1), len(events))
             if ev is not None:
                 ev["_gi"] = gi
@@ -228,6 +234,7 @@ def run(ctx):
                             shortRange=anyp.shortRange, formal_series_equal=seq, lcm_multiplicity=anyp.lcm,
                             commensurate_q=len(anyp.out["commM"]), q_example=qarr[len(comm)].tolist()))
     ctx.traces += len(by_geom) * 4
+    stats["chiral_cases_nonsymmetric_blocks"] = sum(1 for e in events if e["fck"]["kind"] == "chiral")
     stats["negative_eigenvalue_cases"] = sum(1 for e in events if e["scale"]["s"] < 0) // 2
     ctx.extra["replay"] = stats
     ctx.extra["observed_max_rel_error"] = worst
